@@ -8,7 +8,8 @@
      files : rows (bid, stat, vars) kept in the order of the PRIMARY KEY index
              (bid ascending; `SELECT bid FROM files WHERE arch=?` is answered by
              a scan of that covering index), one row per bid;
-     refs  : a set of (bid, ref) pairs (INSERT OR IGNORE).
+     refs  : the set of (bid, ref) pairs (INSERT OR IGNORE), kept in the order
+             of its PRIMARY KEY index as well.
    One archive (one `arch` key) is modelled.  All BobError outcomes are one
    status (SErr).  *)
 From Coq Require Import List NArith Bool.
@@ -34,12 +35,16 @@ Definition str_leb (a b : str) : bool := match str_cmp a b with Gt => false | _ 
 Fixpoint bmem (b : bid) (l : list bid) : bool :=
   match l with [] => false | x :: r => str_eqb b x || bmem b r end.
 
-(* sorted(set(...)) *)
-Fixpoint ins (x : bid) (l : list bid) : list bid :=
+(* insertion into a duplicate-free list kept in the order of [cmp] (a set stored
+   in index order) *)
+Fixpoint gins {T : Type} (cmp : T -> T -> comparison) (x : T) (l : list T) : list T :=
   match l with
   | [] => [x]
-  | y :: r => match str_cmp x y with Lt => x :: l | Eq => l | Gt => y :: ins x r end
+  | y :: r => match cmp x y with Lt => x :: l | Eq => l | Gt => y :: gins cmp x r end
   end.
+
+(* sorted(set(...)) *)
+Definition ins : bid -> list bid -> list bid := gins str_cmp.
 Definition usort (l : list bid) : list bid := fold_right ins [] l.
 
 Fixpoint assoc {V : Type} (k : str) (l : list (str * V)) : option V :=
@@ -247,27 +252,27 @@ Fixpoint find_row (b : bid) (l : list row) : option (N * vars) :=
 
 Definition build_ids (I : index) : list bid := map fst (ix_files I).          (* getBuildIds *)
 Definition refs_of (I : index) (b : bid) : list bid :=                         (* getReferencedBuildIds *)
-  map snd (filter (fun p => str_eqb (fst p) b) (ix_refs I)).
+  map snd (filter (fun p : bid * bid => str_eqb (fst p) b) (ix_refs I)).
 Definition get_vars (I : index) (b : bid) : vars :=                            (* getVars *)
   match find_row b (ix_files I) with Some (_, v) => v | None => [] end.
 
-Fixpoint add_refs (b : bid) (rs : list bid) (t : list (bid * bid)) : list (bid * bid) :=
-  match rs with
-  | [] => t
-  | r :: rs' =>
-    let t' := add_refs b rs' t in
-    if existsb (fun p => str_eqb (fst p) b && str_eqb (snd p) r) t' then t' else (b, r) :: t'
-  end.
+(* PRIMARY KEY (bid, ref, arch): the refs table in index order *)
+Definition ref_cmp (a b : bid * bid) : comparison :=
+  match str_cmp (fst a) (fst b) with Eq => str_cmp (snd a) (snd b) | c => c end.
+
+(* executemany("INSERT OR IGNORE INTO refs VALUES (?, ?, ?)", …) *)
+Definition add_refs (b : bid) (rs : list bid) (t : list (bid * bid)) : list (bid * bid) :=
+  fold_right (fun r t' => gins ref_cmp (b, r) t') t rs.
 
 (* ArchiveScanner.remove: the files row and the refs rows of bid *)
 Definition ix_remove (b : bid) (I : index) : index :=
-  {| ix_files := filter (fun y => negb (str_eqb b (fst y))) (ix_files I);
-     ix_refs := filter (fun p => negb (str_eqb (fst p) b)) (ix_refs I) |}.
+  {| ix_files := filter (fun y : row => negb (str_eqb b (fst y))) (ix_files I);
+     ix_refs := filter (fun p : bid * bid => negb (str_eqb (fst p) b)) (ix_refs I) |}.
 
 (* __exit__ with __cleanup: DELETE FROM refs WHERE bid NOT IN (SELECT bid FROM files) *)
 Definition ix_prune (I : index) : index :=
   {| ix_files := ix_files I;
-     ix_refs := filter (fun p => bmem (fst p) (build_ids I)) (ix_refs I) |}.
+     ix_refs := filter (fun p : bid * bid => bmem (fst p) (build_ids I)) (ix_refs I) |}.
 
 (* ---- the archive directory ------------------------------------------- *)
 (* one file matching the xx/yy/zzz-1.tgz schema: build-id from its name, its
